@@ -382,6 +382,24 @@ def save_replay(prop, name, files, meta):
     return d
 
 
+def tlapm(module, timeout=600):
+    """Runs the TLA+ proof system on spec/<module>.tla in a scratch copy. Returns (all_proved, obligations, wall, output)."""
+    wd = scratch("verif-tlapm-")
+    shutil.copy(os.path.join(SPEC, module + ".tla"), wd)
+    t0 = time.time()
+    try:
+        p = subprocess.run(["tlapm", "--threads", str(min(8, NCPU)), module + ".tla"], cwd=wd, capture_output=True, text=True, timeout=timeout)
+        out = p.stdout + p.stderr
+    except subprocess.TimeoutExpired:
+        out = "timeout"
+    wall = time.time() - t0
+    m = re.search(r"All (\d+) obligations? proved", out)
+    shutil.rmtree(wd, ignore_errors=True)
+    if wd in _scratch:
+        _scratch.remove(wd)
+    return (m is not None), (int(m.group(1)) if m else 0), wall, out
+
+
 class Verdict:
     def __init__(self, prop):
         self.prop = prop
